@@ -32,6 +32,16 @@ def recompute(rep, o, roots_abs):
                     n = sum(1 for p in files if p.startswith(rt + b"/"))
                     if n:
                         per_root.append(n)
+                # paths below no root come last; each is a replica of its own (one per file unless -H)
+                rootless = [p for p in files if not any(p.startswith(rt + b"/") for rt in roots_abs)]
+                if o.get("match_links"):
+                    per_root += [1] * len(rootless)
+                else:
+                    by_id = {}
+                    for p in rootless:
+                        st = os.stat(p)
+                        by_id.setdefault((st.st_dev, st.st_ino), []).append(p)
+                    per_root += [len(v) for v in by_id.values()]
                 c = sum(per_root[rr:])
             else:
                 c = max(0, len(files) - rr)
@@ -80,6 +90,16 @@ def run_case(arg):
         roots_abs = [fse(os.path.join(troot, rt)) for rt in roots]
         home = os.path.join(d, "home")
         o = C06.sample_opts(r, len(roots), sym)
+        if o.get("isolate") and o.get("symbolic_links") and os.path.isdir(os.path.join(troot, "y")) and r.random() < 0.6:
+            # one more input path: a symbolic link to a file outside the other roots (reported under the link's name,
+            # below no --isolate root: a replica of its own)
+            src = next((e for e in spec["entries"] if e["t"] == "f"), None)
+            if src:
+                with open(os.path.join(troot, "y", "extra-target"), "wb") as f:
+                    f.write(tree.content(src["fam"], src["len"], src.get("flip", ())))
+                os.symlink("extra-target", os.path.join(troot, "y", "extra-link"))
+                roots = list(roots) + ["y/extra-link"]
+                roots_abs = roots_abs + [fse(os.path.join(troot, "y", "extra-link"))]
         sig0 = "+".join(k for k in ("isolate", "match_links", "symbolic_links", "transform") if o.get(k)) or "plain"
         sig0 += ":" + (o["rf"][0] if o["rf"] else "default")
         outs = {}
@@ -161,6 +181,10 @@ def run_case(arg):
         spec3 = {"entries": [e for e in spec["entries"] if e["t"] == "d"] + [e for e in reversed(spec["entries"]) if e["t"] == "f"]
                  + [e for e in spec["entries"] if e["t"] in "hl"], "roots": roots}
         tree.materialise(spec3, troot3)
+        if os.path.lexists(os.path.join(troot, "y", "extra-link")):
+            import shutil
+            shutil.copy2(os.path.join(troot, "y", "extra-target"), os.path.join(troot3, "y", "extra-target"))
+            os.symlink("extra-target", os.path.join(troot3, "y", "extra-link"))
         res3, argv3 = gm.run_group(o, roots, troot3, home)
         rep3 = reports.parse_json(res3.out)
         rel = lambda rep, base: [(g["len"], tuple(p[len(fse(base)):] for p in g["files"])) for g in rep.groups]  # noqa: E731
